@@ -51,6 +51,8 @@ RULE = ("shift cases: arange-labelled tensors of rank 1-6, lengths from {1,2,3,4
         "directions; non-trivial = at least one transformed axis of length >= 2; error cases counted in bucket fft/err-*. "
         "distinct = distinct protocol line / oracle case key")
 PENDING_FINDINGS: list[str] = []
+# n-D corollaries (lifting of the 1-D theorems through Tensor.alongAxis) are obligations of this check too
+EXTRA_LEAN_MODULES = ["DirectVerif.Lemmas.TensorLiftC01"]
 
 LENS = [1, 2, 3, 4, 5, 6, 7, 9, 12]
 
